@@ -76,6 +76,9 @@ func VerifNewCBMembership(cfg *config.Dcp, client Client, bus EventBus.Bus) *Ver
 		collectionName:   couchbaseMetadataConfig.Collection,
 		membershipConfig: cfg.GetCouchbaseMembership(),
 		config:           cfg,
+		// the harness plays the two loops: as far as the rounds are concerned they are running until Close()
+		heartbeatRunning: true,
+		monitorRunning:   true,
 	}
 
 	if err := bus.SubscribeAsync(helpers.MembershipChangedBusEventName, cbm.membershipChangedListener, true); err != nil {
